@@ -24,6 +24,10 @@ fn main() {
     }
     match args[1].as_str() {
         "worker" => worker::worker_main(),
+        "skel" => {
+            let n: u16 = args.get(2).and_then(|s| s.parse().ok()).unwrap_or(1);
+            print!("{}", checks::c03::dump_example(n));
+        }
         "list" => {
             for id in checks::ids() {
                 println!("{id}");
